@@ -45,12 +45,14 @@ Convert(k, v) ==
   IF v \in {Err, Skip} THEN v
   ELSE IF k = "time" \/ v.t = "t" THEN (IF v.t = "t" /\ k \in {"time", "ctx"} THEN v ELSE Skip)
   ELSE IF k \in IntKinds \cup UintKinds THEN
-       (IF ~IsNum(v) THEN Skip
+       (IF ~IsNum(v) THEN Err                                      \* a string or boolean is refused by a numeric place
         ELSE LET n == IF v.t = "i" THEN v.n ELSE Trunc(v.n, v.d) IN
              IF n < Lo[k] \/ n > Hi[k] THEN Skip ELSE I(n))        \* values within the destination's range only
-  ELSE IF k \in FloatKinds THEN (IF ~IsNum(v) THEN Skip ELSE R(Num(v), Den(v)))
-  ELSE IF k = "string" THEN (IF v.t = "s" THEN v ELSE Skip)
-  ELSE IF k = "bool" THEN (IF v.t = "b" THEN v ELSE Skip)
+  ELSE IF k \in FloatKinds THEN (IF ~IsNum(v) THEN Err ELSE R(Num(v), Den(v)))
+  \* a Go string / bool place takes nothing but a string / boolean: any other kind is refused with an error, nothing is stored
+  \* (in particular an integer is NOT turned into the character it encodes)
+  ELSE IF k = "string" THEN (IF v.t = "s" THEN v ELSE Err)
+  ELSE IF k = "bool" THEN (IF v.t = "b" THEN v ELSE Err)
   ELSE IF k \in MapKinds THEN v      \* (the Go kind of the value is checked in Assign)
   ELSE v                                                                                        \* json member, context variable: the value as it is
 
